@@ -154,7 +154,7 @@ class Interp:
                 return self.add(l, r)
             if isinstance(e.op, ast.Mod):
                 return K('mod', l, r)
-            raise Unknown(f'operator in {ast.unparse(e)}', e)
+            return K('binop', type(e.op).__name__, l, r)
         if isinstance(e, ast.Call):
             return self.call(e, env)
         raise Unknown(f'expression {ast.unparse(e)[:60]}', e)
@@ -171,6 +171,9 @@ class Interp:
             self.defect('badindex', node, f'{render(base)} indexed by an index ranging over {render(idx[1])}')
             return K('badindex', base, idx)
         if base[0] == 'rows' and idx == K('const', 0):
+            return K('rowpos', base[1], base[2])
+        if base[0] == 'rows' and idx[0] == 'const':
+            self.defect('badindex', node, f'np.where(...) on a 1-D vector returns a 1-tuple; element [{idx[1]}] does not exist')
             return K('rowpos', base[1], base[2])
         if base[0] == 'vec' and idx[0] in ('rows', 'rowpos'):
             return K('sub', base[1], idx[1], idx[2], False)
@@ -192,6 +195,9 @@ class Interp:
             return K('prob', frozenset([(l[1], l[2]), (l[3], l[4])]), frozenset([(l[3], l[4])]), l[5])
         if l[0] in ('cnt', 'jcnt', 'n', 'len') or r[0] in ('cnt', 'jcnt', 'n', 'len'):
             self.defect('badratio', node, f'{render(l)} / {render(r)} is not a probability (numerator must be the count of an event, denominator the count of its conditioning event or N)')
+            return K('badratio', l, r)
+        if l[0] in ('prob', 'log', 'prod', 'red', 'sum') or r[0] in ('prob', 'log', 'prod', 'red', 'sum'):
+            self.defect('badratio', node, f'division {render(l)} / {render(r)} inside the entropy terms: a p*log p term is a product, not a quotient')
             return K('badratio', l, r)
         raise Unknown(f'division {render(l)} / {render(r)}', node)
 
@@ -252,6 +258,9 @@ class Interp:
             return K('tuple', K('vals', args[0][1]), K('cnts', args[0][1]))
         if d == 'numpy.where' and len(args) == 1:
             c = args[0]
+            if c[0] == 'cmp' and c[1] != '==' and c[2][0] in ('vec', 'val') and c[3][0] in ('vec', 'val'):
+                self.defect('badcount', e, f'a stratum is selected with relation {c[1]} instead of == (rows of other strata are mixed in; on codes only equality is meaningful)')
+                c = K('cmp', '==', c[2], c[3])
             if c[0] == 'cmp' and c[1] == '==':
                 a, b = c[2], c[3]
                 if a[0] != 'vec':
@@ -410,6 +419,9 @@ class Interp:
                 raise Unknown(f'augmented operator in {ast.unparse(s)[:60]}', s)
             sign = 1 if isinstance(s.op, ast.Add) else -1
             prev = list(cur[1]) if cur[0] == 'red' else ([] if cur in ZERO else None)
+            if prev is None and cur[0] == 'const' and isinstance(cur[1], (int, float)):
+                self.defect('badinit', s, f'the accumulator {tgt} starts at {cur[1]} instead of 0: a constant is added to the entropy')
+                prev = []
             if prev is None:
                 raise Unknown(f'accumulation into {render(cur)}', s)
             env[tgt] = K('red', tuple(prev + self.contribs(val, st, sign)))
